@@ -55,6 +55,7 @@ func NewConcurrentMiddlewareWithLogger(logger logging.Logger, remote *config.Bac
 				case err = <-failed:
 				case <-ctx.Done():
 				}
+				verifDequeued("concurrent")
 			}
 			cancel()
 			return response, err
